@@ -21,6 +21,18 @@ FOCUS = {
          "string vs enum, truthiness); (d) numerical-looking edits that are exact for the tested sizes only (integer division, "
          "// vs /, int() truncation, range end points, len() vs shape[0], axis arguments, broadcasting of length-1 arrays); "
          "(e) order of evaluation: a read that now happens before/after a write it used to follow/precede.",
+    'g': "This time every change must be a plausible PERFORMANCE OPTIMISATION or RESOURCE SAVING that a maintainer would merge after "
+         "looking at a profile: vectorising a Python loop, hoisting a computation out of a loop or into the constructor, caching / "
+         "memoising a result (on the instance, the class or the module), reusing a buffer or avoiding a copy (views, out= arguments, "
+         "in-place operators, np.asarray instead of np.array, shallow instead of deep copies), skipping work that 'cannot have changed', "
+         "short-circuiting, lazy evaluation, lower precision or fewer quadrature / grid points 'where it does not matter', early exits "
+         "from loops.  It must be correct for the cases the tests and the obvious use exercise and wrong only for a specific history, "
+         "input size, parameter regime or aliasing situation.  Do not repeat the optimisations already listed above.",
+    'h': "This time every change must be a plausible API EVOLUTION: a new optional parameter whose default interacts badly with an "
+         "existing one, accepting additional input types (tuples, numpy scalars, generators, strings) in one place but not in the code "
+         "it feeds, a renamed attribute kept alive through a property or alias that goes stale, a deprecation shim, a changed return "
+         "convention (view vs copy, list vs tuple, float vs 0-d array) that downstream code of the package relies on, a more general "
+         "signature implemented for the common case only, stricter or looser validation at one of several entry points.",
 }
 
 
